@@ -410,3 +410,64 @@ Definition run_bigmachine_runs (worker_resets : bool) (reg : nat)
 (* the increments of the last run of every task *)
 Definition last_runs (tasks : list (list (list (nat * Z)))) : list (nat * Z) :=
   concat (map (fun runs : list (list (nat * Z)) => last runs []) tasks).
+
+(* ================= a task submitted again to the worker that still holds it =================
+   The driver may consider a task lost (or retry the Worker.Run call) although the
+   worker still holds the task in TaskOk.  worker.Run then takes the `default`
+   branch of its switch on task.state (bigmachine.go:795): nothing is executed, the
+   scope is not reset, and the function returns; the deferred block registered
+   BEFORE the switch fills reply.Scope from the completed task's scope.
+   [filled] = that deferred block is registered before the switch (the code as it
+   is); with [filled = false] the early return leaves the fresh reply empty. *)
+Definition bigmachine_answer (filled : bool) (w : world) (wt rw rd t : nat) : world * res unit :=
+  let w0 := reset_nil (reset_nil w rw) rd in              (* new reply structs for the RPC *)
+  match (if filled then reset w0 rw wt else (w0, Ok tt)) with
+  | (w1, Panic) => (w1, Panic)
+  | (w1, Ok _) =>
+      match encode w1 rw with
+      | (w2, Panic) => (w2, Panic)
+      | (w2, Ok pl) =>
+          match decode w2 rd pl with
+          | (w3, DecOk) => reset w3 t rd                  (* task.Scope.Reset(&reply.Scope) *)
+          | (w3, _) => (w3, Panic)
+          end
+      end
+  end.
+
+Fixpoint bigmachine_answers (filled : bool) (w : world) (wt rw rd t : nat) (n : nat) : world * res unit :=
+  match n with
+  | O => (w, Ok tt)
+  | S k => match bigmachine_answer filled w wt rw rd t with
+           | (w1, Ok _) => bigmachine_answers filled w1 wt rw rd t k
+           | (w1, Panic) => (w1, Panic)
+           end
+  end.
+
+(* a task = the increments of its one execution and the number of times it was
+   submitted again afterwards to the same worker *)
+Definition bigmachine_task_resub (worker_resets filled : bool) (w : world) (wt rw rd t : nat)
+           (ln : list (nat * Z) * nat) : world * res unit :=
+  match bigmachine_runs worker_resets w wt rw rd t [fst ln] with
+  | (w1, Ok _) => bigmachine_answers filled w1 wt rw rd t (snd ln)
+  | (w1, Panic) => (w1, Panic)
+  end.
+
+Fixpoint run_bigmachine_tasks_resub (worker_resets filled : bool) (w : world) (k : nat)
+         (tasks : list (list (nat * Z) * nat)) : world * res unit :=
+  match tasks with
+  | [] => (w, Ok tt)
+  | ln :: r =>
+      let b := (4 * k)%nat in
+      match bigmachine_task_resub worker_resets filled w (2 + b) (3 + b) (4 + b) (1 + b) ln with
+      | (w1, Ok _) => run_bigmachine_tasks_resub worker_resets filled w1 (S k) r
+      | (w1, Panic) => (w1, Panic)
+      end
+  end.
+
+Definition run_bigmachine_resub (worker_resets filled : bool) (reg : nat)
+           (tasks : list (list (nat * Z) * nat)) : world * res unit :=
+  let n := length tasks in
+  match run_bigmachine_tasks_resub worker_resets filled (init reg (1 + 4 * n)) 0 tasks with
+  | (w1, Ok _) => merge_tasks w1 (map (fun k => (1 + 4 * k)%nat) (seq 0 n))
+  | (w1, Panic) => (w1, Panic)
+  end.
